@@ -11,7 +11,16 @@ use std::collections::BTreeMap;
 #[derive(Serialize, Deserialize, Debug, Clone)]
 pub enum Op {
     /// Enter / replace: number spelled with `zeros` leading zeros after `blanks` blanks.
-    Enter { num: u64, zeros: u8, blanks: u8, gap: u8, payload: Option<String> },
+    Enter {
+        num: u64,
+        zeros: u8,
+        blanks: u8,
+        gap: u8,
+        payload: Option<String>,
+        /// serial payloads only: the line is `REM <serial>` instead of `PRINT <serial>`
+        #[serde(default)]
+        rem: bool,
+    },
     /// A bare number: deletes the line.
     Delete { num: u64, zeros: u8, blanks: u8, trailing: u8 },
     /// A numbered line that does not tokenize: changes nothing.
@@ -50,7 +59,7 @@ fn op(with_stmts: bool) -> impl Strategy<Value = Op> {
         Just(None).boxed()
     };
     prop_oneof![
-        10 => (num(), 0u8..3, 0u8..3, 0u8..3, payload).prop_map(|(num, zeros, blanks, gap, payload)| Op::Enter { num, zeros, blanks, gap, payload }),
+        10 => (num(), 0u8..3, 0u8..3, 0u8..3, payload, prop::bool::weighted(0.25)).prop_map(|(num, zeros, blanks, gap, payload, rem)| Op::Enter { num, zeros, blanks, gap, payload, rem }),
         4 => (num(), 0u8..3, 0u8..3, 0u8..3).prop_map(|(num, zeros, blanks, trailing)| Op::Delete { num, zeros, blanks, trailing }),
         3 => (num(), 0u8..3, 0u8..(BAD.len() as u8)).prop_map(|(num, zeros, kind)| Op::Fail { num, zeros, kind }),
         1 => (0u8..(HUGE.len() as u8)).prop_map(Op::Huge),
@@ -77,8 +86,9 @@ pub fn check(h: &Hist, rec: &mut CaseRec) -> Verdict {
     let serial_only = h.ops.iter().all(|o| !matches!(o, Op::Enter { payload: Some(_), .. }));
     for (i, o) in h.ops.iter().enumerate() {
         match o {
-            Op::Enter { num, zeros, blanks, gap, payload } => {
+            Op::Enter { num, zeros, blanks, gap, payload, rem } => {
                 let (serial, stmt) = match payload {
+                    None if *rem && serial_only => (Some(i as u64), format!("REM {}", i)),
                     None => (Some(i as u64), format!("PRINT {}", i)),
                     Some(t) => (None, t.clone()),
                 };
@@ -178,7 +188,7 @@ fn compare_list(s: &mut Sess, map: &BTreeMap<u64, (Option<u64>, String)>, serial
     if serial_only {
         // compared up to blanks and letter case: how LIST spaces a line is C14's business
         let norm = |v: &[String]| -> Vec<String> { v.iter().map(|l| l.chars().filter(|c| !c.is_whitespace()).map(|c| c.to_ascii_uppercase()).collect()).collect() };
-        let want: Vec<String> = map.iter().map(|(n, (k, _))| format!("{} PRINT {}\n", n, k.unwrap())).collect();
+        let want: Vec<String> = map.iter().map(|(n, (_, text))| format!("{} {}\n", n, text)).collect();
         if norm(&got) != norm(&want) {
             return Some(Verdict::fail("list-differs-from-map", format!("want {:?} got {:?}", want, got)));
         }
@@ -231,7 +241,8 @@ fn compare_run(s: &mut Sess, map: &BTreeMap<u64, (Option<u64>, String)>, serial_
         }
     };
     if serial_only {
-        let want: String = map.values().map(|(k, _)| format!("{}\n", k.unwrap())).collect();
+        // comment lines print nothing
+        let want: String = map.values().filter(|(_, text)| !text.starts_with("REM")).map(|(k, _)| format!("{}\n", k.unwrap())).collect();
         let got = printed(&out);
         if got != want || tail != "Idle" {
             return Some(Verdict::fail("run-differs-from-map", format!("lines {:?}: want {:?} got {:?} / {}", map.keys().collect::<Vec<_>>(), want, got, tail)));
@@ -260,7 +271,7 @@ pub fn property() -> Property {
     ];
     Property {
         id: "C04",
-        rule: "Histories of 1-80 operations over {enter/replace a line, delete by bare number (existing or not), failed edit (unterminated string, illegal character, bad numeral, multi-byte), 20+-digit pseudo line numbers, LIST, RUN}; line numbers from {0..11} (forcing collisions), {0, 1, 9, 10, 2^32, 2^63, 2^64-2, 2^64-1} and random u64, spelled with leading zeros / leading blanks / with or without a blank before the statement. serial-payloads: each entered line is `PRINT <serial>`; oracle = BTreeMap updated by the stated rules, LIST must equal its rendering and RUN must print the serials in key order (independent of the tokenizer). statement-payloads: arbitrary generated statements; LIST and RUN must equal those of a fresh interpreter into which the map's surviving lines are typed once in ascending order. LIST and RUN are checked wherever they occur and at the end. Non-trivial: >= 1 replace, >= 1 delete of an existing line, >= 1 failed edit and >= 3 surviving lines; distinct by op-kind sequence + surviving numbers.",
+        rule: "Histories of 1-80 operations over {enter/replace a line, delete by bare number (existing or not), failed edit (unterminated string, illegal character, bad numeral, multi-byte), 20+-digit pseudo line numbers, LIST, RUN}; line numbers from {0..11} (forcing collisions), {0, 1, 9, 10, 2^32, 2^63, 2^64-2, 2^64-1} and random u64, spelled with leading zeros / leading blanks / with or without a blank before the statement. serial-payloads: each entered line is `PRINT <serial>` or, one time in four, `REM <serial>` (a line that must be listed but prints nothing); oracle = BTreeMap updated by the stated rules, LIST must equal its rendering and RUN must print the serials in key order (independent of the tokenizer). statement-payloads: arbitrary generated statements; LIST and RUN must equal those of a fresh interpreter into which the map's surviving lines are typed once in ascending order. LIST and RUN are checked wherever they occur and at the end. Non-trivial: >= 1 replace, >= 1 delete of an existing line, >= 1 failed edit and >= 3 surviving lines; distinct by op-kind sequence + surviving numbers.",
         assumptions: vec!["RUN transcripts are compared under a 2000-turn budget"],
         fuzz: Some(FuzzSpec { target: "c04_edits", runs: 100_000, max_len: 400, verdict: crate::fuzz::c04_verdict }),
         families,
